@@ -69,7 +69,7 @@ def generate(rng, tier):
     names = list(enabled)
     wts = [enabled[k] for k in names]
     nsteps = rng.randint(3, 30 if tier == "quick" else 45)
-    if rng.random() < (0.001 if tier == "quick" else 0.003):
+    if core.rare(rng, 0.001 if tier == "quick" else 0.003):
         # a realistically large map (over a million samples), short history of the fitting steps
         init["shape"] = rng.choice([[1024, 1024], [900, 1300], [1200, 1000]])
         init["dtype"] = rng.choice(["f64", "f32", "f32"])
